@@ -65,8 +65,7 @@ class FaultLayer:
             parts = parts[1:]
         # parts = [prefix] | [prefix, si] | [prefix, si, shnum]
         if len(parts) == 1:
-            si = [v for k, v in self.names.items() if k.startswith(parts[0])]
-            return ("IP." if inc else "FP.") + str(si[0] if si else -1)
+            return "IP" if inc else "FP"   # several SIs may share a prefix directory
         si = self.names.get(parts[1], -1)
         if len(parts) == 2:
             return ("ID.%d" if inc else "FD.%d") % si
